@@ -21,10 +21,11 @@ def contracts(tier):
 
 def extra_obligations(tier):
     from pyvc import solve
-    return [vform_hash.hash_obligations(), vform_hash.compile_obligations(),
+    _pu = solve.custom_result('paramuse:C13', 'pyiga/vform.py', 'all functions', __import__('pyvc.paramuse', fromlist=['x']).obligations(['pyiga/vform.py', 'pyiga/compile.py'], 'paramuse'))
+    _r = [vform_hash.hash_obligations(), vform_hash.compile_obligations(),
             solve.custom_result('vform:memo-coherence', vform_hash.FV, 'VForm.hash / VForm.add', vform_hash.memo_coherence_obligations),
             solve.custom_result('vform:numeric-keys', vform_hash.FV, 'ConstExpr.hash_key / VForm.hash', vform_hash.numeric_key_obligations)]
-
+    return list(_r) + [_pu]
 
 MANIFEST = {
     'category': 'proof',
